@@ -19,7 +19,8 @@ AttrSets == {<<[pre |-> P, lo |-> <<"x">>, v |-> <<"1">>], [pre |-> <<>>, lo |->
              <<[pre |-> P, lo |-> <<"x">>, v |-> <<"a", "sp", "<">>], [pre |-> <<>>, lo |-> <<"y">>, v |-> <<>>]>>}
 CharItems == {[k |-> "chars", v |-> <<"t">>, how |-> "plain"], [k |-> "chars", v |-> <<"<", "c", "&">>, how |-> "cdata"],
               [k |-> "chars", v |-> <<"&", "w2">>, how |-> "ref"], [k |-> "chars", v |-> <<"sp", "nl">>, how |-> "plain"],
-              [k |-> "chars", v |-> <<"a", "b", "c">>, how |-> "split3"]}    \* written as text, CDATA section, text: still ONE text node
+              [k |-> "chars", v |-> <<"a", "b", "c">>, how |-> "split3"],
+              [k |-> "chars", v |-> <<"bom", "t">>, how |-> "plain"], [k |-> "chars", v |-> <<"bom">>, how |-> "ref"]}   \* U+FEFF at the start of a text node is a character of it    \* written as text, CDATA section, text: still ONE text node
 Others == {[k |-> "comment", v |-> <<"c">>], [k |-> "pi", lo |-> <<"t">>, v |-> <<"d">>], [k |-> "pi", lo |-> <<"t">>, v |-> <<"d", "sp", "e", "sp">>],
            [k |-> "pi", lo |-> <<"x","m","l","-","s">>, v |-> <<"h">>]}   \* (the second PI's data ends in white space: part of the data)
 
@@ -48,7 +49,7 @@ PA == [pre |-> P, lo |-> <<"a">>]
 QB == [pre |-> Q, lo |-> <<"b">>]
 X1 == <<[pre |-> <<>>, lo |-> <<"x">>, v |-> <<"1">>]>>
 PX == <<[pre |-> P, lo |-> <<"x">>, v |-> <<"a", "sp", "<">>], [pre |-> <<>>, lo |-> <<"y">>, v |-> <<>>]>>
-RunChars == {c \in CharItems : c.how \in {"cdata", "split3"} \/ c.v = <<"t">>}
+RunChars == {c \in CharItems : c.how \in {"cdata", "split3"} \/ c.v \in {<<"t">>, <<"bom", "t">>}}
 StartTags == IF ItemPool = "runs" THEN { <<A_, <<>>, <<>>>> } ELSE
              IF ItemPool = "starts" THEN   \* nesting chains: only what matters for namespace scoping
                { <<A_, <<>>, <<>>>>, <<A_, <<B(<<>>, U1)>>, <<>>>>, <<A_, <<B(<<>>, <<>>)>>, <<>>>>, <<PA, <<B(P, U1)>>, <<>>>>,
